@@ -17,7 +17,7 @@ structure RawSt where
   out : Bytes := []        -- every byte appended to hctx->wb (wb.bytes_in = out.length)
   reqlen : Int := 0        -- hctx->wb_reqlen
   pending : Bytes := []    -- r->reqbody_queue
-deriving Repr
+deriving Repr, DecidableEq
 
 namespace RawSt
 /-- chunkqueue_append_chunkqueue(&hctx->wb, &r->reqbody_queue) (or the tempfile variant):
@@ -166,4 +166,71 @@ def decode (s : Bytes) : Option (List (Bytes × Bytes) × Bytes) :=
   | _ => none
 
 end Uwsgi
+
+/-! ### scgi_create_env() at buffer level
+
+  The C function does not build "length ':' variables ','" front to back: it writes 10 blanks, lets
+  http_cgi_headers() append the variables behind them, renders the length afterwards, copies it
+  right-aligned INTO the blanks (SCGI) or pokes the 4-byte packet header into b[6..9] (uwsgi), and
+  hides the unused blanks by advancing the chunk offset (chunkqueue_mark_written) and taking
+  `offset` off wb.bytes_in / wb.bytes_out again.  `ScgiBuf` models exactly these steps;
+  `c09_scgi_buffer` / `c09_uwsgi_buffer` prove that the visible result is `Scgi.createEnv` /
+  `Uwsgi.createEnv`. -/
+namespace ScgiBuf
+
+/-- buffer_copy_string_len(b, CONST_STR_LEN("          ")) -/
+def placeholder : Bytes := List.replicate 10 32
+
+/-- memcpy(b->ptr + off, src, |src|) (inside the used part of b) -/
+def poke (b : Bytes) (off : Nat) (src : Bytes) : Bytes :=
+  b.take off ++ src ++ b.drop (off + src.length)
+
+structure St where
+  hidden : Bytes     -- b->ptr[0 .. offset): in the chunk's buffer but in front of its read offset
+  offset : Nat       -- offset of the first chunk of hctx->wb after chunkqueue_mark_written()
+  bytesIn : Int      -- hctx->wb.bytes_in  (commit: += clen; then -= offset; body: += moved)
+  bytesOut : Int     -- hctx->wb.bytes_out (mark_written: += offset; then -= offset)
+  st : RawSt         -- what a reader of hctx->wb sees, wb_reqlen, what is left in reqbody_queue
+deriving Repr, DecidableEq
+
+/-- scgi_create_env() from "hctx->wb_reqlen = buffer_clen(b) - offset" to the end -/
+def commit (b : Bytes) (offset : Nat) (bodyLen : Int) (pending : Bytes) : St :=
+  let reqlen0 : Int := (b.length : Int) - (offset : Int)
+  let in0 : Int := (0 : Int) + (b.length : Int) - (offset : Int)
+  let out0 : Int := (0 : Int) + (offset : Int) - (offset : Int)
+  let vis := b.drop offset
+  if bodyLen ≠ 0 then
+    { hidden := b.take offset, offset := offset, bytesIn := in0 + (pending.length : Int), bytesOut := out0,
+      st := { out := vis ++ pending, pending := [],
+              reqlen := if bodyLen > 0 then reqlen0 + bodyLen else -reqlen0 } }
+  else
+    { hidden := b.take offset, offset := offset, bytesIn := in0, bytesOut := out0,
+      st := { out := vis, reqlen := reqlen0, pending := pending } }
+
+/-- LI_PROTOCOL_SCGI.  `none`: the rendered "<len>:" is longer than the 10 reserved bytes, the
+    size_t `offset = 10 - len` wraps and memcpy() writes outside the buffer (undefined; needs a
+    variable block of 10^9 bytes or more - the request header limit keeps it below 2^17) -/
+def scgi (env : List (Bytes × Bytes)) (bodyLen : Int) (pending : Bytes) : Option St :=
+  let b := placeholder ++ Scgi.pairs (env ++ [(ofString "SCGI", ofString "1")])
+  let tb := natDec (b.length - 10) ++ [colon]
+  if tb.length > 10 then none
+  else
+    let offset := 10 - tb.length
+    some (commit (poke b offset tb ++ [44]) offset bodyLen pending)
+
+inductive Res
+  | ok (s : St)
+  | status (code : Nat)
+deriving Repr, DecidableEq
+
+/-- LI_PROTOCOL_UWSGI -/
+def uwsgi (env : List (Bytes × Bytes)) (bodyLen : Int) (pending : Bytes) : Res :=
+  match Uwsgi.addAll placeholder env with
+  | none => .status 400
+  | some b =>
+    let len := b.length - 10
+    if len > Extracted.C09.ushrtMax then .status 431
+    else .ok (commit (poke b 6 [0, (len % 256).toUInt8, (len / 256 % 256).toUInt8, 0]) 6 bodyLen pending)
+
+end ScgiBuf
 end LtVerif
